@@ -152,8 +152,15 @@ class C16(Monitor):
         for pi in range(len(PROGRAMS)):
             yield {"k": "pipe", "s": "PIPE", "prog": pi}
 
+        # the other spelling of a short option with a value: attached (-cx=1, -mjson),
+        # as with `python -cpass`; still exactly one source
+        for smask in (2, 4, 8):
+            for fmask in range(32):
+                for pi in range(len(PROGRAMS)):
+                    yield {"k": "argv", "s": "CLIA", "sources": smask, "flags": fmask, "prog": pi, "attached": 1}
+
     def predicted(self):
-        return 16 * 32 * len(PROGRAMS) + len(PROGRAMS)
+        return 16 * 32 * len(PROGRAMS) + len(PROGRAMS) + 3 * 32 * len(PROGRAMS)
 
     def finish(self, stats):
         if self.env is not None:
@@ -179,6 +186,8 @@ class C16(Monitor):
                 argv += ["-e", E_EXPR.get(PROGRAMS[pi][0], repr(src))]
             elif name == "-m":
                 argv += ["-m", mod]
+        if case.get("attached"):
+            argv = [argv[0] + argv[1]]
         for bit, fl in enumerate(FLAGS):
             if (case["flags"] >> bit) & 1:
                 argv.append(fl)
@@ -270,7 +279,11 @@ class C16(Monitor):
             self.env = Env()
         argv, given = self.argv_for(case)
         stats.evaluations += 1
-        stats.nontriv(("argv", case["sources"], case["flags"], case["prog"]))
+        if case.get("attached") and argv[0] in ("-c", "-e", "-m"):
+            # an empty value has no attached spelling (`-c` alone is the option without a value)
+            stats.skipped["empty-value-has-no-attached-spelling"] += 1
+            return
+        stats.nontriv(("argv", case["sources"], case["flags"], case["prog"], case.get("attached", 0)))
         if case["flags"] in (0, 31):
             stats.sample("CLI", {"argv": [short(a, 60) for a in argv]}, per=3)
         if len(given) == 1:
